@@ -91,6 +91,14 @@ CLIP_SPECS = [
 ]
 
 
+def _shared_parts(polys):
+    a, b = polys[len(polys) // 3], polys[-1]
+    pa, pb = a.representative_point(), b.representative_point()
+    r = min(a.bounds[2] - a.bounds[0], a.bounds[3] - a.bounds[1]) / 50
+    return shapely.GeometryCollection([shapely.Point(pa.x, pa.y).buffer(r), shapely.Point(pa.x + r / 4, pa.y).buffer(r / 2),
+                                       shapely.Point(pb.x, pb.y), shapely.Point(pb.x, pb.y + r / 10), a.centroid.buffer(r / 3)])
+
+
 def geometries(ds):
     x0, y0, x1, y1 = ds.ems.bounds
     cx, cy = (x0 + x1) / 2, (y0 + y1) / 2
@@ -107,6 +115,8 @@ def geometries(ds):
         'point': shapely.Point(first.representative_point()),
         'multi': shapely.MultiPolygon([shapely.box(x0, y0, x0 + w / 5, y0 + h / 5), shapely.box(x1 - w / 5, y1 - h / 5, x1, y1)]),
         'outside': shapely.box(x1 + 5, y1 + 5, x1 + 6, y1 + 6),
+        # several parts inside / touching the same cells (a cell hit by two parts must still be selected once)
+        'parts sharing cells': _shared_parts(polys),
         'collection': shapely.GeometryCollection([shapely.box(x0, y0, x0 + w / 5, y0 + h / 5), shapely.LineString([(cx, y0), (cx, y1)])]),
     }
 
